@@ -136,8 +136,8 @@ func runChannels(a *Analyzer, r *Results) {
 				if funcPkgPath(op.fn) != modPath || op.fn.Parent() != nil {
 					continue
 				}
-				if op.fn.Name() == "UpdateState" {
-					continue // public API: blocks until the main loop takes it or ctx is cancelled (U8)
+				if op.fn.Name() == "UpdateState" || (c.Term(st.Chan).Op == "field" && len(c.Term(st.Chan).Args) == 1 && c.Term(st.Chan).Args[0].Key() == This("leanhelix.MainLoop").Key()) {
+					continue // public API -> main loop (the main loop's own inbound channel): blocks until taken or ctx is cancelled (U8 / Z8)
 				}
 				okH := x.Blocking && hasCancel && len(x.States) == 2
 				r.Check("U7.handoff", props("C14", "C05", "C19"), "the main loop's hand-off of an election trigger / sync to the worker cannot drop the newest value: the sending select has no default arm, only a ctx.Done() arm", funcID(op.fn)+"|"+lbl, a.P.InstrPos(op.in), okH,
